@@ -167,7 +167,7 @@ func dumpWGraph(g *graph.WeightedAuthorizationModelGraph, withWeights bool) wRes
 func realWBuild(m *openfgav1.AuthorizationModel) wResult {
 	var g *graph.WeightedAuthorizationModelGraph
 	var err error
-	if p := safely(func() { g, err = graph.NewWeightedAuthorizationModelGraphBuilder().Build(m) }); p != "" {
+	if p := safely(func() { g, err = wBuilder().Build(m) }); p != "" {
 		return wResult{Err: "panic:" + p, Full: "panic:" + p}
 	}
 	if err != nil {
